@@ -534,7 +534,14 @@ func ruleC04_5(c *Ctx) {
 			pos   ssa.Instruction
 		}
 		var parts []part
-		allInstrs(so, func(in ssa.Instruction) {
+		// (the command string and the counter may be computed in a helper of OnSOpened: `initSequence(s.IsSlave())`)
+		resolve := func(v ssa.Value) ssa.Value {
+			if b, ok := boundParam(v); ok {
+				return strip(b)
+			}
+			return v
+		}
+		p.allInstrsDeep(so, func(in ssa.Instruction) {
 			bo, ok := in.(*ssa.BinOp)
 			if !ok || bo.Op != token.ADD {
 				return
@@ -561,7 +568,7 @@ func ruleC04_5(c *Ctx) {
 			}
 			c.check(incs == 1, "OnSOpened: "+pt.name+" counted once", c.at(pt.pos), "step++ next to the appended command",
 				fmt.Sprintf("the %s command is appended to the handshake with %d step increments in its block: InitializingDecode waits for the wrong number of +OK and the first real reply is swallowed or the connection never initialises", pt.name, incs))
-			gs := guardsAt(pt.block)
+			gs := guardsOf(pt.pos)
 			switch pt.name {
 			case "AUTH":
 				okG := guardHas(gs, func(g Guard) bool {
@@ -572,7 +579,7 @@ func ruleC04_5(c *Ctx) {
 				c.check(okG, "OnSOpened: AUTH only with a password", c.at(pt.pos), "len(authCmd) > 0", "AUTH is sent without the len(authCmd) > 0 guard", withGuards(gs))
 			case "READONLY":
 				okG := guardHas(gs, func(g Guard) bool {
-					call, ok := g.Cond.(*ssa.Call)
+					call, ok := resolve(g.Cond).(*ssa.Call)
 					return ok && g.Truth && call.Call.IsInvoke() && call.Call.Method.Name() == "IsSlave" && strip(call.Call.Value) == ssa.Value(so.Params[1])
 				})
 				c.check(okG, "OnSOpened: READONLY exactly on replica connections", c.at(pt.pos), "s.IsSlave()", "READONLY is not guarded by s.IsSlave(): replica connections would refuse reads (MOVED) or masters get a pointless command", withGuards(gs))
@@ -580,7 +587,7 @@ func ruleC04_5(c *Ctx) {
 			// the two parts are independent: READONLY does not depend on the password test and AUTH not on the role
 			cross := ""
 			for _, g := range guardsAtRaw(pt.block) {
-				e := expr(g.Cond)
+				e := expr(resolve(g.Cond))
 				if pt.name == "READONLY" && strings.Contains(e, "server.authCmd") {
 					cross = g.String()
 				}
@@ -597,7 +604,7 @@ func ruleC04_5(c *Ctx) {
 		okStep := false
 		allInstrs(so, func(in ssa.Instruction) {
 			if call, ok := in.(*ssa.Call); ok && call.Call.IsInvoke() && call.Call.Method.Name() == "SetInitializeStep" {
-				if _, isPhi := call.Call.Args[0].(*ssa.Phi); isPhi {
+				if _, isPhi := throughTuple(call.Call.Args[0]).(*ssa.Phi); isPhi {
 					okStep = true
 				}
 			}
